@@ -24,9 +24,10 @@ import (
 type version struct {
 	t      *database.VerifTreapImmutable
 	m      model
-	it     *database.VerifTreapIterator // created with the version, reused for every re-read
-	fwd    *database.VerifTreapIterator // mid-traversal iterators, advanced one step per later update
-	bwd    *database.VerifTreapIterator
+	prio   [4]int                      // priority of each present key as read from the shadow stream (-1 absent/unknown)
+	it     database.VerifTreapIterator // created with the version, reused for every re-read
+	fwd    database.VerifTreapIterator // mid-traversal iterators, advanced one step per later update
+	bwd    database.VerifTreapIterator
 	fi, bi int // next expected positions in e (forward index / backward index)
 	e      [4]int
 	n      int
@@ -40,51 +41,60 @@ type immFail struct {
 }
 
 type immRun struct {
-	seed    int64
-	shadow  *rand.Rand
-	pos     int64 // values consumed from the global stream so far
-	depth   int
-	stack   []version
-	ops     []string
-	opPos   []int64
-	nodes   int64 // operations executed (= DFS nodes)
-	reads   int64 // version re-reads
-	stacks  map[uint64]struct{}
-	hash    []uint64
-	fails   map[string]*immFail
-	maxSeen int
-	samples [][]string
-	stop    func() bool
-	capped  bool
-	f       failures
-	ctx     []byte
+	seed     int64
+	shadow   *rand.Rand
+	pos      int64 // values consumed from the global stream so far
+	depth    int
+	stack    []version
+	ops      []string
+	opPos    []int64
+	nodes    int64 // operations executed (= DFS nodes)
+	reads    int64 // version re-reads
+	stacks   map[uint64]struct{}
+	hash     []uint64
+	fails    map[string]*immFail
+	maxSeen  int
+	samples  [][]string
+	stop     func() bool
+	capped   bool
+	f        failures
+	ctx      []byte
+	savePool [][]savedIter
 }
 
 func newImmRun(seed int64, depth int) *immRun {
 	rand.Seed(seed)
-	r := &immRun{seed: seed, shadow: rand.New(rand.NewSource(seed)), depth: depth, stacks: map[uint64]struct{}{}, fails: map[string]*immFail{}}
-	r.push(database.VerifNewTreapImmutable(), emptyModel())
+	r := &immRun{stack: make([]version, 0, depth+2), seed: seed, shadow: rand.New(rand.NewSource(seed)), depth: depth, stacks: map[uint64]struct{}{}, fails: map[string]*immFail{}}
+	r.push(database.VerifNewTreapImmutable(), emptyModel(), [4]int{-1, -1, -1, -1})
 	r.hash = append(r.hash, 1469598103934665603)
 	return r
 }
 
-func (r *immRun) push(t *database.VerifTreapImmutable, m model) {
-	v := version{t: t, m: m, it: t.Iterator(nil, nil), fwd: t.Iterator(nil, nil), bwd: t.Iterator(nil, nil)}
+func (r *immRun) push(t *database.VerifTreapImmutable, m model, prio [4]int) {
+	r.stack = append(r.stack, version{})
+	v := &r.stack[len(r.stack)-1]
+	v.t, v.m, v.prio = t, m, prio
+	v.it = newIter(t, nil, nil)
+	v.fwd, v.bwd = v.it, v.it
 	v.n = m.within(rng{}, &v.e)
 	v.fi, v.bi = 0, v.n-1
-	r.stack = append(r.stack, v)
 }
 
-// sync locates the marker in the shadow stream and returns the stream position after it.
-func (r *immRun) sync() bool {
+// sync locates the marker in the shadow stream. It returns the number of values the operation
+// consumed before the marker and the first of them (the priority of a new node).
+func (r *immRun) sync() (ok bool, draws int, first int) {
 	g := rand.Int()
 	for i := 0; i < 4096; i++ {
 		r.pos++
-		if r.shadow.Int() == g {
-			return true
+		x := r.shadow.Int()
+		if x == g {
+			return true, i, first
+		}
+		if i == 0 {
+			first = x
 		}
 	}
-	return false
+	return false, 0, 0
 }
 
 // skipTo fast-forwards both generators to stream position p (replay).
@@ -108,7 +118,8 @@ func modelCode(m model) uint64 {
 func (r *immRun) step(op string) *failures {
 	put, k, v := parseOp(op)
 	top := &r.stack[len(r.stack)-1]
-	m := top.m
+	m, prio := top.m, top.prio
+	wasAbsent := m[k] < 0
 	r.ops = append(r.ops, op)
 	r.opPos = append(r.opPos, r.pos)
 	var nt *database.VerifTreapImmutable
@@ -118,16 +129,24 @@ func (r *immRun) step(op string) *failures {
 	} else {
 		nt = top.t.Delete(keys[k])
 		m[k] = -1
+		prio[k] = -1
 	}
 	r.nodes++
 	f := &r.f
 	f.list = f.list[:0]
-	r.push(nt, m)
+	ok, draws, firstDraw := r.sync()
+	if put && wasAbsent {
+		prio[k] = -1
+		if draws == 1 {
+			prio[k] = firstDraw
+		}
+	}
+	r.push(nt, m, prio)
 	h := r.hash[len(r.hash)-1]
 	h = (h ^ (modelCode(m) + 1)) * 1099511628211
 	r.hash = append(r.hash, h)
 	r.stacks[h] = struct{}{}
-	if !r.sync() {
+	if !ok {
 		f.add("priority-stream", "marker not found in the shadow priority stream")
 		return f
 	}
@@ -136,7 +155,12 @@ func (r *immRun) step(op string) *failures {
 	r.ctx = r.ctx[:0]
 	r.ctx = append(append(r.ctx, "new version after "...), op...)
 	nf := len(f.list)
-	readFull(nt, m, f, string(r.ctx))
+	if fullReadNeeded(1, opIndex(op), m, prio) {
+		r.fullReads++
+		readFull(nt, m, f, string(r.ctx))
+	} else if c := readBasic(nt, m, &r.stack[len(r.stack)-1].it); c != "" {
+		f.add(c, "%s: treap disagrees with the sorted-map model %v (%s)", r.ctx, m, c)
+	}
 	for i := nf; i < len(f.list); i++ {
 		f.list[i][0] = "new-version|" + f.list[i][0]
 	}
@@ -146,7 +170,7 @@ func (r *immRun) step(op string) *failures {
 		ver := &r.stack[i]
 		r.reads++
 		if !oldRead {
-			if c := readBasic(ver.t, ver.m, ver.it); c != "" {
+			if c := readBasic(ver.t, ver.m, &ver.it); c != "" {
 				oldRead = true
 				f.add("old-version|"+c, "after %s (%d updates later) retained version %d no longer answers as recorded %v (%s)", op, len(r.stack)-1-i, i, ver.m, c)
 			}
@@ -161,14 +185,14 @@ func (r *immRun) step(op string) *failures {
 		}
 		if ver.fi <= ver.n {
 			ver.fwd.ForceReseek() // no effect on immutable treaps per the API contract
-			if !atOK(ver.fwd, ver.fwd.Next(), ver.m, wf) && !oldIter {
+			if !atOK(&ver.fwd, ver.fwd.Next(), ver.m, wf) && !oldIter {
 				oldIter = true
 				f.add("old-version|iter-midway|next", "after %s: forward iterator of retained version %d (model %v), in mid-traversal across later updates, does not yield its next key", op, i, ver.m)
 			}
 			ver.fi++
 		}
 		if ver.bi >= -1 {
-			if !atOK(ver.bwd, ver.bwd.Prev(), ver.m, wb) && !oldIter {
+			if !atOK(&ver.bwd, ver.bwd.Prev(), ver.m, wb) && !oldIter {
 				oldIter = true
 				f.add("old-version|iter-midway|prev", "after %s: backward iterator of retained version %d (model %v), in mid-traversal across later updates, does not yield its previous key", op, i, ver.m)
 			}
@@ -204,11 +228,15 @@ func (r *immRun) dfs() {
 		return
 	}
 	// mid-traversal iterator states to restore after each child
-	saved := make([]savedIter, len(r.stack))
+	for len(r.savePool) <= d {
+		r.savePool = append(r.savePool, make([]savedIter, r.depth+2))
+	}
+	saved := r.savePool[d]
 	for i := range r.stack {
 		s := &r.stack[i]
-		if s.active() {
-			saved[i] = savedIter{fwd: *s.fwd, bwd: *s.bwd, fi: s.fi, bi: s.bi, active: true}
+		saved[i].active = s.active()
+		if saved[i].active {
+			saved[i].fwd, saved[i].bwd, saved[i].fi, saved[i].bi = s.fwd, s.bwd, s.fi, s.bi
 		}
 	}
 	for _, op := range allOps {
@@ -233,7 +261,7 @@ func (r *immRun) dfs() {
 		for i := range r.stack {
 			if saved[i].active {
 				s := &r.stack[i]
-				*s.fwd, *s.bwd, s.fi, s.bi = saved[i].fwd, saved[i].bwd, saved[i].fi, saved[i].bi
+				s.fwd, s.bwd, s.fi, s.bi = saved[i].fwd, saved[i].bwd, saved[i].fi, saved[i].bi
 			}
 		}
 	}
